@@ -12,9 +12,12 @@ pub mod c08;
 pub mod c09;
 pub mod c10;
 pub mod c11;
+pub mod c12;
+pub mod c13;
+pub mod c14;
 pub mod c15;
 pub mod c16;
 pub mod c17;
 pub mod c18;
 
-pub static ALL: &[&Prop] = &[&c01::PROP, &c02::PROP, &c03::PROP, &c04::PROP, &c06::PROP, &c07::PROP, &c08::PROP, &c09::PROP, &c10::PROP, &c11::PROP, &c15::PROP, &c16::PROP, &c17::PROP, &c18::PROP];
+pub static ALL: &[&Prop] = &[&c01::PROP, &c02::PROP, &c03::PROP, &c04::PROP, &c06::PROP, &c07::PROP, &c08::PROP, &c09::PROP, &c10::PROP, &c11::PROP, &c12::PROP, &c13::PROP, &c14::PROP, &c15::PROP, &c16::PROP, &c17::PROP, &c18::PROP];
